@@ -147,7 +147,15 @@ def one_session(args):
         forced_char = dated is not None and step == 0
         if forced_char:
             kind_ = 'stream'
-        if kind_ in ('remove', 'edit') and cwd_files:
+        # fixed places in the rotation for two kinds of change that random choice reaches too rarely
+        forced_target, forced_how = None, None
+        if step == 2 and 'o2' in case['names']:
+            kind_, forced_target = 'edit', 'o2'
+        elif step == 0 and not forced_char and tid % 3 == 1 and 'o1' in case['names'] and not case['names']['o1'].startswith('$TMPDIR/'):
+            kind_, forced_target, forced_how = 'edit', 'o1', 'nonascii'
+        if forced_target:
+            t = forced_target
+        elif kind_ in ('remove', 'edit') and cwd_files:
             t = rnd.choice(cwd_files if kind_ == 'remove' else sorted(case['names']))
         elif kind_ == 'exit':
             t = 'exit'
@@ -169,14 +177,18 @@ def one_session(args):
                 beh['files'][name] = None
                 what = 'file no longer produced'
             elif spec['kind'] == 'text':
-                spec['text'] = gl.edit_first_line(spec['text'], rnd)
-                what = 'text file edited'
+                spec['text'] = gl.edit_first_line(spec['text'], rnd, how=forced_how if (forced_how and spec['text'].isascii()) else None)
+                what = 'text file edited' + (' (a character outside ASCII added)' if forced_how and not spec['text'].isascii() else '')
             else:
                 i = rnd.randrange(len(spec['bytes']))
                 old = spec['bytes'][i]
-                new = (old + 1) % 256
-                spec['bytes'][i] = new
-                what = 'byte %d changed %d -> %d' % (i, old, new)
+                if rnd.random() < (0.85 if len(spec['bytes']) % 4096 == 0 else 0.4):
+                    spec['bytes'] = spec['bytes'] + [rnd.randrange(256)]
+                    what = 'one byte appended (%d bytes before): %d' % (len(spec['bytes']) - 1, spec['bytes'][-1])
+                else:
+                    new = (old + 1) % 256
+                    spec['bytes'][i] = new
+                    what = 'byte %d changed %d -> %d' % (i, old, new)
         elif t == 'STDOUT' and kind_ == 'tokenline':
             beh['stdout'], what = gl.edit_token_line(beh['stdout'], rnd, case['wd'])
             what = 'stdout: ' + what
@@ -332,6 +344,9 @@ def run_sessions(chk, seed, nsessions, nperturb, clauses, kind):
                         # bytes that str.splitlines treats as line ends when the file is read as ISO-8859-1 text
                         seps = {0x0a, 0x0b, 0x0c, 0x0d, 0x1c, 0x1d, 0x1e, 0x85}
                         sig['line_separator_swap'] = bool(m_ and int(m_.group(1)) in seps and int(m_.group(2)) in seps)
+                        m2_ = re.match(r'one byte appended \(\d+ bytes before\): (\d+)', prev[-1]['what'])
+                        if m2_ and int(m2_.group(1)) in seps:
+                            sig['line_separator_swap'] = True      # a line end added after the last line: the same reading-as-text defect
                 chk.violation(sig, {'case': {k: v for k, v in det.items() if k != 'wd'}, 'event': e,
                                     'previous_perturbation': prev[-1] if prev else None,
                                     'how': 'python -m tdda.referencetest.gentest in a scratch directory; generated test run with '
